@@ -31,7 +31,12 @@ def worker(w):
             r = q.get_nowait()
         except queue.Empty:
             return
-        d = json.load(open(r))
+        try:
+            d = json.load(open(r))
+        except Exception as ex:
+            with out_lock:
+                print(f'{os.path.basename(r)}: INVALID-ROW {ex}'); bad[0] += 1
+            continue
         name = os.path.basename(r)[:-5]
         patch = os.path.join(ROOT, d['patch'])
         p = subprocess.run(['patch', '-p1', '-s', '-d', scratch, '-i', patch], capture_output=True, text=True)
